@@ -88,6 +88,14 @@ func deferMethod(depth int) int {
 	return depth + 2
 }
 
+func showSum(tag string, xs ...int) {
+	t := 0
+	for _, x := range xs {
+		t = t*10 + x
+	}
+	hook.Ev(tag, t)
+}
+
 func nested(depth int) (n int) {
 	defer func() {
 		r := recover()
@@ -106,7 +114,14 @@ func node(depth int) (res int, err error) {
 	hook.Fault("enter")
 	nd := hook.Choose(4)
 	for i := 0; i < nd; i++ {
-		switch hook.Choose(16) {
+		switch hook.Choose(18) {
+		case 16:
+			// the arguments of the deferred call are computed by a function that itself defers
+			defer func(v int, w int) {
+				hook.Ev("d-arg-defers", depth, v, w)
+			}(withInnerDefer(depth), deferMethod(depth))
+		case 17:
+			defer showSum("d-arg-defers-variadic", withInnerDefer(depth+1), deferBuiltin(depth))
 		case 14:
 			// after a function whose deferred call was a builtin, an indirect recover is still indirect
 			defer func() {
